@@ -379,6 +379,7 @@ pub fn run_mode(opts: &Options, prop: &str) -> Report {
         let peer = PeerIndex::new(1);
         let mut peer_branch: Vec<usize> = vec![0; n_peers + 1];
         let mut pending_switch: Vec<usize> = Vec::new();
+        let mut first_left = false;
         let mut now = branches[0].chain.tip().timestamp() + 5000;
         set_now(now);
         for p in 1..=n_peers {
@@ -437,6 +438,17 @@ pub fn run_mode(opts: &Options, prop: &str) -> Report {
                 }
                 Step::Run(n) => {
                     if let Some(p) = pending_switch.pop() {
+                        // in some histories the peer that reported the reorganisation first leaves
+                        // before the next one follows: whatever the client keeps per PEER about the
+                        // abandoned branch has to go when that peer's proved state is reorganised,
+                        // not only when the store is rolled back
+                        let one_switch = sc.steps.iter().filter(|s| matches!(s, Step::Switch(_))).count() == 1;
+                        if prop == "C04" && one_switch && [7u64, 10, 15].contains(&(*seed % 16)) && !first_left && node.i().peers.get_peer(&peer).is_some() {
+                            first_left = true;
+                            node.drop_unconnected = true;
+                            node.disconnect(peer);
+                            rep.count_class("first-peer-leaves-before-the-second-follows");
+                        }
                         peer_branch[p] = serving;
                         let chain = &branches[serving].chain;
                         if let Err(e) = catch(|| node.announce(PeerIndex::new(p), chain)) {
@@ -462,6 +474,10 @@ pub fn run_mode(opts: &Options, prop: &str) -> Report {
                                 break;
                             }
                             budget -= 1;
+                            // a peer that has left answers nothing
+                            if node.i().peers.get_peer(&p).is_none() {
+                                continue;
+                            }
                             let chain = &branches[peer_branch.get(p.value()).copied().unwrap_or(serving)].chain;
                             let replies = match server::handle(chain, &sopts, protocol, &data) {
                                 Ok(r) => r,
@@ -670,6 +686,22 @@ pub fn run_mode(opts: &Options, prop: &str) -> Report {
             continue;
         }
         rep.count_class("converged");
+        // every peer of these histories follows the protocol: none of them may be banned
+        // (histories with one peer, or with two of which the first left before the second
+        // followed: while two connected peers are on different branches for a moment, the hashes
+        // of the one that lags contradict the filters of the other - not judged here)
+        // (a message for a session the client has dropped is answered with PeerIsNotFound: no ban)
+        node.bans.retain(|(_, m)| !m.starts_with("PeerIsNotFound"));
+        if prop == "C04" && !node.bans.is_empty() && (n_peers == 1 || (first_left && n_peers == 2)) {
+            let what: Vec<String> = node.bans.iter().map(|(p, m)| format!("peer {}: {}", p, m.chars().take(90).collect::<String>())).collect();
+            let code = node.bans[0].1.split(|c: char| !c.is_ascii_alphanumeric()).find(|w| !w.is_empty()).unwrap_or("?").to_string();
+            rep.violate(
+                &format!("{}|honest-peer-banned|{}", prop, code),
+                "a peer that follows the protocol is banned while the client follows a reorganisation",
+                replay(format!("# bans: {:?}", what)),
+            );
+            continue;
+        }
         let tip = node.i().storage.get_tip_header().calc_header_hash();
         if grown.number_of_hash(&tip).is_none() {
             rep.violate(&format!("{}|not-converged", prop), "the client does not reach the honest peer's chain after the reorganisation", replay(format!("# stored tip {} is not on the final branch", short(&tip))));
